@@ -31,6 +31,15 @@
     * `compile_annotated_projects`, `loop_keys_read_only_by_loops`, `slide_annotated_simulates(_resume)`, `if_reads_next_else_only`,
       `if_brk_variant_counterexample` — the element dicts WITH the loop keys the annotation pass leaves on every element of a loop
       body (`V1Annot`): `slide` on them follows the structured program; `if` skips by `_next_else` whatever loop keys it carries.
+  Wave 6 (end of this file):
+    * `call_subflow_uid_fresh`, `uids_pairwise_distinct(_step)`, `interrupter_lookup_unique`, `shape_has_uids_ok` — the uid a
+      subflow instance gets is fresh; "the uids of the flow states are pairwise distinct" is an invariant of `compute_next_state`
+      for ALL flow configs and events (the hypothesis the call / return theorems carry in `V1Stack.Shape`);
+    * `uid_names_irrelevant(_states)` — the interpreter that names its flow states by ANY injective naming of the counter (uuid4) decides
+      like `V1Interp` and reaches the same states up to the renaming: only freshness matters;
+    * `interp_is_counter_alloc`, `siteAlloc_injective`, `siteAlloc_not_fresh`, `call_site_uid_counterexample` — the interpreter over an allocation policy
+      (`Models/V1Uid.lean`): with the counter it IS `V1Interp`; with uids derived from the call site the flow
+      `while $i < 2: do ask item; $i = $i + 1` runs ahead of the subflow it called (kernel-checked).
   What is NOT carried by a theorem (function-level theorems + correspondence + oracle only): histories with several dialog
   flows (interruption by another dialog flow, abort, extension flows, priorities), `hide_prev_turn`, `bot stop`, and
   everything the widened model executes for llm_flows.co.
@@ -46,9 +55,10 @@ import NemoVerif.Lemmas.V1Hide
 import NemoVerif.Lemmas.V1Run
 import NemoVerif.Lemmas.V1Mut
 import NemoVerif.Lemmas.V1Annot
+import NemoVerif.Lemmas.V1Uid
 import NemoVerif.Generated.LlmFlowsV1
 namespace NemoVerif.C14
-open NemoVerif.V1Annot NemoVerif.V1Interp NemoVerif.V1Struct NemoVerif.V1Follow NemoVerif.V1Sub NemoVerif.V1Multi NemoVerif.V1Run NemoVerif.V1RunL NemoVerif.V1Mut NemoVerif.V1FollowDo NemoVerif.V1Stack NemoVerif.V1StackFollow
+open NemoVerif.V1Annot NemoVerif.V1Interp NemoVerif.V1Struct NemoVerif.V1Follow NemoVerif.V1Sub NemoVerif.V1Multi NemoVerif.V1Run NemoVerif.V1RunL NemoVerif.V1Mut NemoVerif.V1FollowDo NemoVerif.V1Stack NemoVerif.V1StackFollow NemoVerif.V1Uid NemoVerif.V1UidL
 
 /-- The compiler as the code has it (compile sub-blocks, then annotate every element of a loop body
     with `_next_on_break`/`_next_on_continue` unless an inner loop already did) computes the same
@@ -1029,5 +1039,151 @@ theorem if_brk_variant_counterexample :
     slideA 50 (compileA ifInWhile) ⟨[], []⟩ 0 0 = .at ⟨[("i", .int 1)], [("i", .int 1)]⟩ 3 ∧
     slideIfBrk 50 (compileA ifInWhile) ⟨[], []⟩ 0 0 = .at ⟨[("i", .int 0)], [("i", .int 0)]⟩ 6 := by
   refine ⟨by rfl, by rfl, by rfl, by rfl⟩
+/-! ## Wave 6: which uid a subflow instance gets (seeded change C14-f) -/
+
+/-- **`_call_subflow` hands out FRESH uids** (the model of `uid=new_uuid()`), for every library of flow configs, every caller,
+    every call depth: if the uids of the state's flow states are below the counter, then `_slide_with_subflows` (the slide,
+    every `do` it reaches, recursively) returns a state whose flow-state list is the old one followed by new instances with
+    pairwise distinct uids, each different from the uid of EVERY flow state that was there before — in particular from the
+    COMPLETED instance a previous execution of the same `do` left behind —; the caller keeps its uid; and if the caller now
+    waits (`interrupted_by` changed) it waits for one of the new instances, never for an older flow state. -/
+theorem call_subflow_uid_fresh (repaired : Bool) (fuel : Nat) (cfgs : Cfgs) (ns : State) (fs : FS) (ns' : State) (fs' : FS)
+    (hbound : ∀ x ∈ ns.flows, x.uid < ns.ctr)
+    (h : slideWithSubflows repaired fuel cfgs ns fs = .ok (ns', fs')) :
+    ∃ new : List FS, ns'.flows = ns.flows ++ new ∧ (new.map (·.uid)).Nodup ∧
+      (∀ x ∈ new, ∀ y ∈ ns.flows, x.uid ≠ y.uid) ∧ (∀ x ∈ new, x.uid < ns'.ctr) ∧ ns.ctr ≤ ns'.ctr ∧
+      fs'.uid = fs.uid ∧
+      ∀ u, fs'.interruptedBy = some u → fs.interruptedBy = some u ∨ ((∃ x ∈ new, x.uid = u) ∧ ∀ y ∈ ns.flows, y.uid ≠ u) := by
+  have fr := slideWS_fresh repaired fuel cfgs ns fs ns' fs' h
+  obtain ⟨hc, new, hfl, hnd, hr⟩ := fr.ext
+  refine ⟨new, hfl, hnd, ?_, fun x hx => (hr x hx).2, hc, fr.uid, ?_⟩
+  · intro x hx y hy; have := hr x hx; have := hbound y hy; omega
+  · intro u hu
+    rcases fr.by_new u hu with h' | ⟨h1, _, x, hx, hxu⟩
+    · exact .inl h'
+    · right
+      refine ⟨?_, fun y hy => by have := hbound y hy; omega⟩
+      rw [hfl] at hx
+      rcases List.mem_append.1 hx with hx | hx
+      · have := hbound x hx; omega
+      · exact ⟨x, hx, hxu⟩
+
+/-- **The uids of the flow states of every state are pairwise distinct** — `UidsOK` (pairwise distinct, below the counter) is
+    an invariant of `compute_next_state`, for ALL flow configs (dialog flows, subflows, extension flows, any priorities),
+    every event and every state: advance loop, start loop, re-activation of aborted flows, interruption marks, the resume
+    fix-point.  This is the hypothesis the call / return theorems carry in `V1Stack.Shape` (`nodup`, `bound`); it is checked
+    on every state the real `compute_next_state` returns while the harness replays its histories (uid tie). -/
+theorem uids_pairwise_distinct_step (repaired : Bool) (cfgs : Cfgs) (st : State) (ev : Event) (st' : State)
+    (hU : UidsOK st) (h : computeNextState repaired cfgs st ev = .ok st') : UidsOK st' :=
+  computeNextState_uids repaired cfgs st ev st' h hU
+
+/-- … hence in every state reached by replaying ANY history from the initial state (`compute_next_steps`). -/
+theorem uids_pairwise_distinct (repaired : Bool) (cfgs : Cfgs) (history : List Event) (config : Ctx) (st : State)
+    (h : replay repaired cfgs history { ctx := config } = .ok st) : UidsOK st :=
+  replay_uids repaired cfgs history _ st h ⟨by simp, by simp⟩
+
+/-- **`V1Interp` is the interpreter with the allocation policy "fresh uid from the counter"**: the policy-parametric
+    interpreter of `Models/V1Uid.lean` (same text, `alloc.…` in the place of `ns.ctr`) instantiated with `counterAlloc`
+    is `computeNextSteps`, for all flow configs and histories. -/
+theorem interp_is_counter_alloc (repaired : Bool) (cfgs : Cfgs) (history : List Event) (config : Ctx) :
+    computeNextStepsU counterAlloc repaired cfgs history config = computeNextSteps repaired cfgs history config :=
+  computeNextStepsU_counter repaired cfgs history config
+
+/-- `siteAlloc` is injective in the call site (caller uid, position of the `do`) for positions below `SITE_W`, like
+    `f"{caller.uid}/{caller.head}"` — what it lacks is freshness in TIME. -/
+theorem siteAlloc_injective (c c' : Nat) (a b : FS) (ha : 0 ≤ a.head ∧ a.head < SITE_W) (hb : 0 ≤ b.head ∧ b.head < SITE_W)
+    (h : siteAlloc.sub c a = siteAlloc.sub c' b) : a.uid = b.uid ∧ a.head = b.head := by
+  simp only [siteAlloc, SITE_W] at *
+  omega
+
+/-- where pairwise distinct uids are USED: the resume pass looks up the interrupter of a waiting flow by uid and takes the
+    first hit (`for _flow_state in …: if _flow_state.uid == flow_state.interrupted_by: … break`); under `UidsOK` the first
+    hit is THE flow state with that uid, whichever it is. -/
+theorem interrupter_lookup_unique (st : State) (hU : UidsOK st) (x : FS) (hx : x ∈ st.flows) :
+    st.flows.find? (fun g => g.uid == x.uid) = some x := by
+  obtain ⟨i, hi⟩ := List.mem_iff_getElem?.1 hx
+  exact find_uid hU.1 hi
+
+/-- the invariant of `next_step_is_flow_statement_with_do` / `resume_unwinds_stack` (`V1Stack.Shape`) contains `UidsOK` -/
+theorem shape_has_uids_ok (cfgs : Cfgs) (ns : State) (stk : List SFrame) (h : Shape cfgs ns stk) : UidsOK ns :=
+  ⟨h.nodup, fun x hx => by obtain ⟨j, hj⟩ := List.mem_iff_getElem?.1 hx; exact h.bound j x hj⟩
+
+/-- `collect items`: `user start / $i = 0 / while $i < 2: (do ask item / $i = $i + 1) / bot say done`;
+    `ask item`: `bot ask item / user give item` (the program of seeded/C14-f-subflow-uid-from-call-site/demo.py) -/
+def loopCfgs : Cfgs :=
+  [{ id := "collect items", elems := compile (.step (.user "start") (.set "i" (.lit (.int 0))
+      (.while (.bin .lt (.var "i") (.lit (.int 2))) (.step (.doFlow "ask item") (.set "i" (.bin .add (.var "i") (.lit (.int 1))) .nil))
+        (.step (.bot "say done") .nil)))) },
+   { id := "ask item", isSubflow := true, elems := compile (.step (.bot "ask item") (.step (.user "give item") .nil)) }]
+
+def loopHistory : List Event :=
+  [.userIntent "start", .botIntent "ask item", .userIntent "give item", .botIntent "ask item", .userIntent "give item"]
+
+/-- **Kernel-checked counterexample for call-site-derived uids** (finite fact, `decide +kernel`).  The flow asks for an item
+    twice and then says it is done.  With fresh uids (the code as it is) the second `give item` completes the loop: the
+    decision is `$i = 2`, `bot say done`.  With `uid = f(caller uid, position of the do)` the instance created in the second
+    iteration gets the uid of the COMPLETED instance of the first iteration (both are in the state: uids `[0, 7, 7]`,
+    `UidsOK` fails); the resume pass looks up the caller's `interrupted_by`, finds the completed one first, and resumes the
+    caller while the subflow it just called is still running: already after the FIRST `give item` the counter is advanced to
+    2 (the caller ran through the loop), and after the second one nothing is decided — `bot say done` is never reached. -/
+theorem call_site_uid_counterexample :
+    -- the code as it is (fresh uids)
+    computeNextSteps true loopCfgs (loopHistory.take 3) = .ok [.ctx [("i", .int 1)], .bot "ask item"] ∧
+    computeNextSteps true loopCfgs loopHistory = .ok [.ctx [("i", .int 2)], .bot "say done"] ∧
+    -- uids derived from the call site
+    computeNextStepsU siteAlloc true loopCfgs (loopHistory.take 3) = .ok [.ctx [("i", .int 2)], .bot "ask item"] ∧
+    computeNextStepsU siteAlloc true loopCfgs loopHistory = .ok [] ∧
+    (replayU siteAlloc true loopCfgs (loopHistory.take 3) {}).toOption.map (fun st => st.flows.map (fun x => (x.uid, x.status)))
+      = some [(0, .active), (7, .completed), (7, .active)] ∧
+    (replay true loopCfgs (loopHistory.take 3) {}).toOption.map (fun st => st.flows.map (fun x => (x.uid, x.status, x.interruptedBy)))
+      = some [(0, .interrupted, some 2), (1, .completed, none), (2, .active, none)] := by
+  decide +kernel
+
+/-- non-vacuity of `uids_pairwise_distinct` / `call_subflow_uid_fresh`: the replay of the loop history is defined, its
+    state has three flow states (the caller, the completed and the running instance of the subflow), and the slide that
+    resumes the caller does call the subflow (one new flow state) -/
+example : (replay true loopCfgs (loopHistory.take 3) {}).toOption.map (fun st => (st.flows.length, decide (UidsOK st))) = some (3, true) := by
+  decide +kernel
+
+example : (slideWithSubflows true SUB_FUEL loopCfgs
+      { ctx := [("i", .int 0)], flows := [{ uid := 0, flowId := "collect items", head := 4 }, { uid := 1, flowId := "ask item", head := -2, status := .completed }], ctr := 2 }
+      { uid := 0, flowId := "collect items", head := 4 }).toOption.map (fun p => (p.1.flows.map (·.uid), p.2.interruptedBy)) = some ([0, 1, 2], some 2) := by
+  decide +kernel
+
+example : siteAlloc.sub 5 { uid := 0, flowId := "collect items", head := 3 } = 7 := by decide
+
+/-- **The NAMES of the uids do not matter — only that they never repeat.**  `new_uuid()` returns uuid4 strings, the model hands out
+    a counter.  For EVERY injective naming `g` of the allocation counter (a sequence of names that never repeats), the
+    interpreter that hands out `g 0, g 1, …` decides, for all flow configs and every history, exactly what `V1Interp` decides:
+    uids are only ever compared for equality (`interrupted_by` lookup, `next_step_by_flow_uid`). -/
+theorem uid_names_irrelevant (g : Nat → Nat) (hg : Function.Injective g) (repaired : Bool) (cfgs : Cfgs) (history : List Event) (config : Ctx) :
+    computeNextStepsU (injAlloc g) repaired cfgs history config = computeNextSteps repaired cfgs history config :=
+  computeNextSteps_inj g hg repaired cfgs history config
+
+/-- … and it reaches, from renamed states, the renamed states (`mapSt g`: every uid, `interrupted_by` and
+    `next_step_by_flow_uid` renamed): what the state tie of the harness compares up to. -/
+theorem uid_names_irrelevant_states (g : Nat → Nat) (hg : Function.Injective g) (repaired : Bool) (cfgs : Cfgs) (history : List Event) (st : State) :
+    replayU (injAlloc g) repaired cfgs history (mapSt g st) =
+      (match replay repaired cfgs history st with
+       | .ok s => .ok (mapSt g s)
+       | .error e => .error e) := by
+  rw [replay_map g hg]; rfl
+
+/-- non-vacuity: an injective naming that is not the identity, and a history on which it names the subflow instances 7 and 9 -/
+example : Function.Injective (fun n : Nat => 2 * n + 5) := by intro a b h; simp at h; omega
+example : (replayU (injAlloc (fun n => 2 * n + 5)) true loopCfgs (loopHistory.take 3) {}).toOption.map (fun st => st.flows.map (·.uid)) = some [5, 7, 9] := by
+  decide +kernel
+
+/-- what the call-site policy lacks: its uid does not depend on WHEN the call happens -/
+theorem siteAlloc_not_fresh (c c' : Nat) (caller : FS) : siteAlloc.sub c caller = siteAlloc.sub c' caller := rfl
+
+/-- non-vacuity of `interrupter_lookup_unique` / `shape_has_uids_ok`, and a state that is NOT `UidsOK` -/
+example : UidsOK { flows := [{ uid := 0, flowId := "a", head := 1 }, { uid := 1, flowId := "b", head := 0 }], ctr := 2 } ∧
+    ({ uid := 1, flowId := "b", head := 0 } : FS) ∈ [({ uid := 0, flowId := "a", head := 1 } : FS), { uid := 1, flowId := "b", head := 0 }] := by
+  decide
+example : Shape [] {} [] := ⟨by simp, by simp, by simp, by simp, by simp, by simp, by simp⟩
+example : ¬ UidsOK { flows := [{ uid := 7, flowId := "ask item", head := -2, status := .completed }, { uid := 7, flowId := "ask item", head := 0 }], ctr := 8 } := by
+  decide
+
 
 end NemoVerif.C14
